@@ -32,6 +32,14 @@ check("C19", "exploration",
       "independent reference decoder in the check; git 2.39.5 upload-pack as peer; frames over 65520 bytes count as malformed only when emitted",
       "DESIGN.md §5 C19")
 
+check("C13", "exploration",
+      "runtime differential monitor: real find_merge_base/can_fast_forward/independent/find_octopus_base/Walker on exhaustively enumerated DAG x clock spaces against an ancestor-bitset oracle that is itself validated against git merge-base/rev-list on every run",
+      "All DAGs on n<=4 nodes x all 75 weak orders of timestamps x all query pairs/triples/include sets/excludes/walker options "
+      "(thorough: n=5, all 1024 DAGs x 541 weak orders for pairs), random DAGs to 300 commits under 7 clock modes, and on-disk "
+      "copies made by git fast-import with no/git/dulwich commit-graph. Exhaustive only inside the stated bounds.",
+      "ancestor-bitset oracle (validated against git 2.39.5 each run); excludes under skewed clocks only checked for duplicates/containment as the statement exempts them",
+      "DESIGN.md §5 C13")
+
 ALL = ["C%02d" % i for i in range(1, 21)]
 
 
